@@ -1440,6 +1440,18 @@ func entStoreHistory(c *chain, r *rng, nops int, mon *storeMon, kinds map[string
 // validation refuses it (sdk.AccAddressFromBech32("") errs), the model's ent_AccAddressFromBech32 accepts go_zero_addr.
 var emptySignerElems = os.Getenv("VERIF_STORE_EMPTY_SIGNER") == "1"
 
+// guardedHistory: a panic of a keeper accessor on a generated (legal) operation sequence is an observation, not a
+// harness crash: it is reported as a failure of the property on the implementation.
+func guardedHistory(mon *storeMon, name string, f func() []string) (ops []string) {
+	defer func() {
+		if e := recover(); e != nil {
+			mon.fail(-1, fmt.Sprintf("%s: a keeper store accessor panicked on a generated operation sequence (what one entity stored was read as another?): %v", name, e))
+			ops = nil
+		}
+	}()
+	return f()
+}
+
 func cmdStore(args []string) {
 	fs := flag.NewFlagSet("store", flag.ExitOnError)
 	out := fs.String("out", ".", "output directory")
@@ -1482,19 +1494,19 @@ func cmdStore(args []string) {
 	var wh, sh, bh, eh [][]string
 	for i := 0; i < *n; i++ {
 		mon.hist = i
-		wh = append(wh, wrkStoreHistory(c, r, *nops, mon, kinds))
+		wh = append(wh, guardedHistory(mon, "wrkStoreHistory", func() []string { return wrkStoreHistory(c, r, *nops, mon, kinds) }))
 	}
 	for i := 0; i < *n; i++ {
 		mon.hist = *n + i
-		sh = append(sh, strStoreHistory(c, r, *nops, mon, kinds))
+		sh = append(sh, guardedHistory(mon, "strStoreHistory", func() []string { return strStoreHistory(c, r, *nops, mon, kinds) }))
 	}
 	for i := 0; i < *n; i++ {
 		mon.hist = 2**n + i
-		bh = append(bh, bcnStoreHistory(c, r, *nops, mon, kinds))
+		bh = append(bh, guardedHistory(mon, "bcnStoreHistory", func() []string { return bcnStoreHistory(c, r, *nops, mon, kinds) }))
 	}
 	for i := 0; i < *n; i++ {
 		mon.hist = 3**n + i
-		eh = append(eh, entStoreHistory(c, r, *nops, mon, kinds))
+		eh = append(eh, guardedHistory(mon, "entStoreHistory", func() []string { return entStoreHistory(c, r, *nops, mon, kinds) }))
 	}
 	emit("wrk", "GeneratedWrkchainTypes model.StoreCheckWrk", "wst_bad_corr", wh, nil)
 	emit("str", "GeneratedStreamTypes model.StoreCheckStr", "sst_bad_corr", sh, strAddrDefs)
